@@ -99,6 +99,19 @@ def handle (fn : String) (a : Lean.Json) : R Lean.Json := do
     let il ← logs a "init_logs"
     let e ← exn (← field a "raise")
     pure (obj [("spec", evs (Spec.emittedInitFail il e)), ("obs", evs (initFailObs il e))])
+  | "sink" =>
+    -- ops: ["call", LOG] | ["flush", schemaEmpty] | ["reset"]; returns what each op wrote and the final buffer
+    let ops ← (← arrF a "ops").mapM fun j => do
+      match (← arr j) with
+      | [.str "call", l] => do pure (SinkOp.call (← log l))
+      | [.str "flush", e] => do pure (SinkOp.flush (← bool e))
+      | [.str "reset"] => pure SinkOp.reset
+      | _ => throw "bad sink op"
+    let step := fun (acc : Sink × List (List Log)) (o : SinkOp) =>
+      let (s1, w) := sinkStep acc.1 o
+      (s1, acc.2 ++ [w])
+    let (fin, ws) := ops.foldl step (⟨[], none⟩, [])
+    pure (obj [("written", ofList (ws.map fun w => evs (w.map Ev.log))), ("buffer", evs (fin.buffer.map Ev.log))])
   | "keeps" =>
     pure (obj [("pipe_step", ofBool VgiVerif.Gen.LogDispatch.pipeStepKeepsLogs),
                ("pipe_init", ofBool VgiVerif.Gen.LogDispatch.pipeInitKeepsLogs),
